@@ -789,7 +789,12 @@ MANIFEST = {
             "independent position-set union per (seqid, strand, type); ids must be new and distinct; inputs' printed form and an "
             "independent dump of the database must not change; the same objects and the yielded objects are merged again. "
             "merge_all is judged on the content dump (new feature per multi-member run, level-1 relations or deletions, all other "
-            "rows untouched), children_bp against summed lengths and union sizes. Held = no executed case disagreed.",
+            "rows untouched), children_bp against summed lengths and union sizes (each child once, also when it is related to the "
+            "queried feature at levels 1 and 2). Shaped workloads put shorter features inside a long one (overlapping, touching or "
+            "detached from their predecessor; on the same or another seqid / strand / type) so that absorption by the run's extent "
+            "and rejection inside the extent are frequent, through merge() and merge_all(); merge_criteria is handed over as list, "
+            "tuple, set, generator, iterator, chain or bare callable to merge(), merge_all() and children_bp(). "
+            "Held = no executed case disagreed.",
     "note": "Trusted: gvmon/models/c16_merge.py (its reading of the undocumented criteria names), create_db. Not asserted: "
             "bin / attributes / source / seqid / strand / type of in-memory merged outputs under non-default criteria, output "
             "order, persistence of the id counters merge_all advances.",
